@@ -4,7 +4,7 @@ from .. import common, pool, pipefam
 
 RULE = ("scripts of environment answers (stop? -> bool, get -> job|empty|sentinel, put -> ok|full) executed on the real "
         "WorkerProcess.run() in-thread with stub queues and on the Coq model; exhaustive over well-typed scripts up to length L "
-        "(L=10 quick, 13 thorough) plus random scripts up to length 40 with ill-typed answers; non-trivial = at least one job taken "
+        "(L=10 quick, 13 thorough) plus random scripts up to length 40 with ill-typed answers; plus a real WorkerProcess with real multiprocessing queues (large results, late consumer, bounded output queue); non-trivial = at least one job taken "
         "and one queue-full or queue-empty answer; distinct = the script")
 
 
@@ -109,6 +109,8 @@ def property_failures(script, tr):
         fails.append({"kind": "more_than_one_result_missing", "taken": tr["taken"], "accepted": acc})
     if tr["exited"] == "sentinel" and tr["sentinel_back"] != 1:
         fails.append({"kind": "sentinel_not_put_back_once", "n": tr["sentinel_back"]})
+    if tr["exited"] == "exception":
+        fails.append({"kind": "worker_died_with_uncaught_exception", "exception": tr.get("exception"), "taken": tr["taken"], "accepted": acc})
     if tr["exited"] == "stop" and not any(a[0] == "stop" and a[1] for a in script):
         fails.append({"kind": "exit_without_stop_or_sentinel"})
     return fails
@@ -159,7 +161,7 @@ def run(chk):
         if flats is not None:
             chk.cov["traces_validated_against_impl"] += 1
             m = decode(flats[i])
-            pcr = {None: None, "stop": 3, "sentinel": 4}[tr["exited"]]
+            pcr = {None: None, "stop": 3, "sentinel": 4, "exception": 99}[tr["exited"]]
             same = (m["taken"] == tr["taken"] and m["accepted"] == tr["accepted"] and m["sentinel_back"] == tr["sentinel_back"]
                     and ((pcr is None and m["pc"] in (0, 1, 2)) or pcr == m["pc"]))
             if not same and not pf:
@@ -167,6 +169,19 @@ def run(chk):
                 first_diff = first_diff or {"script": s, "model": m, "implementation": tr}
     chk.oblige("correspondence model = implementation on every script (jobs taken, results accepted, sentinel, exit)", ndiff == 0,
                json.dumps(first_diff)[:2500] if first_diff else "")
+    # the runtime the model cannot exhibit: a real process and real multiprocessing queues, results larger than a pipe buffer,
+    # a consumer that is late (exploration, stated as such)
+    rreqs = [{"op": "worker.realproc", "n": 6, "size": 300000, "delay": 1.2}, {"op": "worker.realproc", "n": 40, "size": 10, "delay": 0.0, "maxsize": 2}]
+    if chk.tier != "quick":
+        rreqs += [{"op": "worker.realproc", "n": 200, "size": 5000, "delay": 0.5, "maxsize": 3}, {"op": "worker.realproc", "n": 12, "size": 2000000, "delay": 2.0}]
+    for rq_, rep in zip(rreqs, pool.run_requests(rreqs, timeout=60)):
+        chk.cov["evaluations"] += 1
+        chk.count("real_process_runs")
+        good = rep.get("ok") and rep["got"] == list(range(rq_["n"])) and rep["exitcode"] == 0 and rep["sentinel_back"] and not rep["still_alive"]
+        if not good:
+            nv += 1
+            chk.violation("real WorkerProcess with real queues: not exactly one result per job in order / sentinel not put back / worker did not exit",
+                          {"real_process": rq_, "outcome": {k: rep.get(k) for k in ("ok", "exc", "msg", "got", "exitcode", "still_alive", "sentinel_back", "seconds")}})
     chk.cov["exhaustive_well_typed_scripts_up_to_length"] = L
     chk.cov["exhaustive_count"] = n_ex
     chk.sample({"script": scripts[0], "trace": traces[0]})
@@ -175,6 +190,11 @@ def run(chk):
 
 
 def replay(chk, rp):
+    if "real_process" in rp:
+        rep = pool.run_requests([rp["real_process"]], timeout=60)[0]
+        print(json.dumps(rep, indent=1, default=str))
+        n = rp["real_process"]["n"]
+        return 0 if (rep.get("ok") and rep["got"] == list(range(n)) and rep["exitcode"] == 0 and rep["sentinel_back"]) else 1
     rep = pool.run_requests([{"op": "worker.scripts", "scripts": [rp["script"]]}])[0]
     pf = property_failures(rp["script"], rep["traces"][0])
     print(json.dumps({"trace": rep["traces"][0], "failures": pf}, indent=1))
